@@ -562,6 +562,11 @@ func (ck *checker) checkCase(p *pcase) {
 					ck.report(p, in, "nonzero_slot", d)
 				}
 			}
+			if res.Helper != "" {
+				d := base()
+				d["helper"] = res.Helper
+				ck.report(p, in, "gradient_helper", d)
+			}
 			if res.FrameBreak != "" {
 				d := base()
 				d["frame"] = res.FrameBreak
